@@ -13,7 +13,9 @@ import (
 	"encoding/base64"
 	"errors"
 	"fmt"
+	"strconv"
 	"strings"
+	"time"
 )
 
 type field struct {
@@ -174,6 +176,21 @@ func Verify(msg []byte, pub crypto.PublicKey) error {
 	}
 	if tags["l"] != "" {
 		return errors.New("l= not supported by this verifier")
+	}
+	// x= (RFC 6376 3.5): a signature that has expired when it arrives, or expires before it was made, fails
+	if x := stripWS(tags["x"]); x != "" {
+		xv, err := strconv.ParseInt(x, 10, 64)
+		if err != nil {
+			return fmt.Errorf("x: %w", err)
+		}
+		if time.Now().Unix() > xv {
+			return errors.New("signature has expired (x=)")
+		}
+		if t := stripWS(tags["t"]); t != "" {
+			if tv, err := strconv.ParseInt(t, 10, 64); err == nil && xv <= tv {
+				return errors.New("x= is not later than t=")
+			}
+		}
 	}
 	// body hash
 	bh := sha256.Sum256(canonBody(bc, body))
